@@ -36,6 +36,21 @@ _ALL = {
     },
 }
 
+_ALL["C16"] = {
+    "design_ref": "DESIGN.md §5 C16",
+    "technique": _TECH + "in-memory file system behind the syscall primitives with seeded fault injection (undecodable bytes, "
+                         "occupied output paths, ENOENT/EACCES/EIO/ENOSPC at chosen bytes, mkdir races, crash and interrupt at "
+                         "chosen syscalls), listing-order schedules, four entry points, stream-twin and baseline-run oracles",
+    "level_text": "Seeded search over (tree, entry point, listing order, buffering knobs, 0-3 faults). Invariants that hold at every "
+                  "instant (inputs never touched, nothing written outside the mirror set) are checked over the whole syscall trace, "
+                  "including crashed and interrupted runs; finished runs are checked for the one-to-one mapping, reporting, "
+                  "entry-point agreement against the stream API fed the recorded line history, and isolation against a real "
+                  "baseline run on the tree without the failing files.",
+    "level_note": "Trusted: SimFS errno model (fault-free behaviour cross-checked against the real file system by "
+                  "`check selftest-simfs`); CLI->kwargs translation table of the harness; an unlistable sub-directory is an "
+                  "observation only.",
+}
+
 CHECKS = []
 
 NOT_APPLICABLE = [
@@ -56,8 +71,8 @@ NOTES = ("All claimed checks are exploration-level deterministic simulations (se
          "scratch copy (sensitivity self-test only). Exit 2 = harness error, never reported as success.")
 
 
-CLAIMED = ["C02", "C03", "C17"]
-PENDING = ["C07", "C08", "C10", "C12", "C13", "C16"]
+CLAIMED = ["C02", "C03", "C16", "C17"]
+PENDING = ["C07", "C08", "C10", "C12", "C13"]
 
 CHECKS[:] = [dict(_ALL[p], property_id=p) for p in CLAIMED]
 NOT_APPLICABLE += [{"property_id": p, "reason": "claimed in DESIGN.md; its check is not built yet in this commit (work in "
